@@ -1,5 +1,5 @@
 // auto-generated: "lalrpop 0.23.1"
-// sha3: 64c2b0cf61d0348593815673e140fe1f8a211e0dc7fd2e87c60b4e0230b55dcd
+// sha3: 66f78408548bc3c59ecf6297f47e2ed0a8c583e3303fb9f47ab91f2d541cc811
 use crate::rt::*;
 #[allow(unused_extern_crates)]
 extern crate lalrpop_util as __lalrpop_util;
@@ -512,13 +512,13 @@ fn __action1<
 >(
     (_, l, _): (i64, i64, i64),
     (_, c0, _): (i64, Tok, i64),
+    (_, pL1, _): (i64, i64, i64),
     (_, c1, _): (i64, Tree, i64),
-    (_, pL2, _): (i64, i64, i64),
     (_, c2, _): (i64, Tok, i64),
     (_, r, _): (i64, i64, i64),
 ) -> Tree
 {
-    { probe("S#0", 2, 'L', pL2); node("S#0", l, r, vec![Tree::from(c0), Tree::from(c1), Tree::from(c2)]) }
+    { probe("S#0", 1, 'L', pL1); node("S#0", l, r, vec![Tree::from(c0), Tree::from(c1), Tree::from(c2)]) }
 }
 
 #[allow(clippy::too_many_arguments, clippy::needless_lifetimes, clippy::just_underscores_and_digits, clippy::extra_unused_type_parameters)]
@@ -540,12 +540,12 @@ fn __action2<
 fn __action3<
 >(
     (_, l, _): (i64, i64, i64),
+    (_, pL0, _): (i64, i64, i64),
     (_, c0, _): (i64, Tok, i64),
-    (_, pR1, _): (i64, i64, i64),
     (_, r, _): (i64, i64, i64),
 ) -> Tree
 {
-    { probe("S#2", 1, 'R', pR1); node("S#2", l, r, vec![Tree::from(c0)]) }
+    { probe("S#2", 0, 'L', pL0); node("S#2", l, r, vec![Tree::from(c0)]) }
 }
 
 #[allow(clippy::needless_lifetimes, clippy::clone_on_copy)]
@@ -580,8 +580,8 @@ fn __action6<
 {
     let __start0 = __0.0.clone();
     let __end0 = __0.0.clone();
-    let __start1 = __1.2.clone();
-    let __end1 = __2.0.clone();
+    let __start1 = __0.2.clone();
+    let __end1 = __1.0.clone();
     let __temp0 = __action5(
         &__start0,
         &__end0,
@@ -595,8 +595,8 @@ fn __action6<
     __action1(
         __temp0,
         __0,
-        __1,
         __temp1,
+        __1,
         __2,
         __3,
     )
@@ -638,21 +638,27 @@ fn __action8<
 >(
     __0: (i64, Tok, i64),
     __1: (i64, i64, i64),
-    __2: (i64, i64, i64),
 ) -> Tree
 {
     let __start0 = __0.0.clone();
     let __end0 = __0.0.clone();
+    let __start1 = __0.0.clone();
+    let __end1 = __0.0.clone();
     let __temp0 = __action5(
         &__start0,
         &__end0,
     );
     let __temp0 = (__start0, __temp0, __end0);
+    let __temp1 = __action5(
+        &__start1,
+        &__end1,
+    );
+    let __temp1 = (__start1, __temp1, __end1);
     __action3(
         __temp0,
+        __temp1,
         __0,
         __1,
-        __2,
     )
 }
 
@@ -729,22 +735,14 @@ fn __action11<
 {
     let __start0 = __0.2.clone();
     let __end0 = __0.2.clone();
-    let __start1 = __0.2.clone();
-    let __end1 = __0.2.clone();
     let __temp0 = __action4(
         &__start0,
         &__end0,
     );
     let __temp0 = (__start0, __temp0, __end0);
-    let __temp1 = __action4(
-        &__start1,
-        &__end1,
-    );
-    let __temp1 = (__start1, __temp1, __end1);
     __action8(
         __0,
         __temp0,
-        __temp1,
     )
 }
 
